@@ -794,3 +794,36 @@ def _panic_guards(F, b):
             if other and diverges(other[0][0]):
                 out.append(_norm(op, lhs, rhs, truth))
     return out
+
+
+# --------------------------------------------------------------------------- R-ZEROLEN
+def r_zerolen(F, cfg):
+    """Length-0 transforms: every helper returns before validation when chunk_size == 0 (the
+    validators' `while len >= chunk_size` loop would never terminate for chunk_size 0)."""
+    R = Result("R-ZEROLEN", "a zero-length transform returns before the chunk loop: the validator call is dominated by chunk_size != 0")
+    validators = find_validators(F)
+    helpers = find_helpers(F, validators)
+    base = {k: h for k, h in helpers.items() if not h["wrapper_of"]}
+    R.metric("helpers", len(base))
+    for hid, h in sorted(base.items()):
+        b = h["body"]
+        bi, t = h["call"]
+        slices, usizes, fns, other = _param_shape(F, b)
+        chunk = usizes[0]
+        dom = b.dominators().get(bi, set())
+        guarded = False
+        for d in dom:
+            for (tgt, op, lhs, rhs, truth) in _switch_edges(F, b, d, usizes):
+                rel = _norm(op, lhs, rhs, truth)
+                if (tgt in dom or tgt == bi) and (_holds(rel, "Ne", ("param", chunk), ("const", 0)) or _holds(rel, "Gt", ("param", chunk), ("const", 0))
+                                                    or _holds(rel, "Ge", ("param", chunk), ("const", 1))):
+                    # the edge must be the only way from d towards the call
+                    others = [e for e in _switch_edges(F, b, d, usizes) if e[0] != tgt]
+                    if all(not (o[0] in dom or o[0] == bi) for o in others):
+                        guarded = True
+        if guarded:
+            R.ok({"helper": b.name, "guard": "chunk_size != 0 dominates the validator call"}, nontrivial=True)
+        else:
+            R.violation("zerolen:%s" % b.name, b.where(t), "%s reaches %s with chunk_size == 0: the chunk loop `while len >= 0` never terminates for a length-0 transform"
+                        % (b.name, validators[h["validator"]].name))
+    return R
